@@ -66,9 +66,12 @@ class C13(Check):
             'constant/uniform/6 decades/1/scale^2 with 0-40% zero weights, random fixed-coefficient patterns with and '
             'without inputans, inputfunc, data scale 1e-3..1e6, exact basis combinations, float32 problems; every '
             'zero-weight point is then moved and its y changed by 1e6*scale and the fit repeated; trace sets: 1-6 traces, '
-            '10-400 positions (pixel grids with jitter, shuffled, float32), invvar/inmask, explicit or data xmin/xmax, '
+            '10-400 positions (pixel grids with jitter, shuffled, float32), invvar with zeros and/or a 1/0 inmask given as bool, '
+            'int8/16/32/64, uint8/16 or float, masked points on the curve or 3..3000 amplitudes off it, then every masked / '
+            'zero-weight y changed by 1e6*scale and the set refitted; explicit or data xmin/xmax, '
             'jump window inside / below / above the x range, both constructors; FITS-style tables (D and E columns) with '
-            'random coefficient matrices evaluated at given positions, on the default grid and with ignore_jump; default '
+            'random coefficient matrices evaluated at given positions, on the default grid and with ignore_jump, then again '
+            'on the same object in another order (jump / ignore_jump alternating, reshaped xpos, first xpos again); default '
             'grids with xmax-xmin exactly integral, within 1e-12..1e-3 of an integer and generic.  Non-trivial: a basis '
             'case with m >= 3; a fit with unequal weights, a zero weight or a fixed coefficient; a trace set with >= 2 '
             'coefficients; distinct by hash of the materialised input.')
@@ -80,6 +83,8 @@ class C13(Check):
                    '100*eps*max(d^2, 2d*sum|monomial coefficients|) per order (float32: 100*eps32*d^2)',
                    'H(x) of the split basis inside trace sets: positions with |xnorm| < 1e-12*(1+max|x|/range) (float32 1e-5*...) are undecided; evaluation tolerances scale with the same amplification',
                    'grid size: xmax-xmin within 64*eps*max(1,|xmin|,|xmax|) of an integer but not exactly integral is undecided',
+                   'inmask follows the xy2traceset docstring ("1 for good points and 0 for rejected points", array-like): any bool, '
+                   'integer or float array holding only 1/0; invvar is a float array of the positions\' dtype',
                    'trace-set domain: float positions, xmax > xmin, xjumphi > xjumplo, function names '
                    'legendre/chebyshev/poly/chebyshev_split (the aliases flegendre... are only func_fit names)']
     REQUIRED_COUNTERS = ('basis_rows_checked', 'basis_rows_float32', 'scalar_abscissae', 'int_abscissae',
@@ -88,6 +93,9 @@ class C13(Check):
                          'exact_combinations_recovered', 'exact_recovered_to_1e-9', 'fit_float32',
                          'tset_roundtrip_jump', 'tset_roundtrip_nojump', 'tset_roundtrip_split', 'tset_roundtrip_float32',
                          'tset_fit_coeff_compared', 'tset_inmask_used', 'tset_jump_window_inside',
+                         'tset_inmask_bool', 'tset_inmask_signed_int', 'tset_inmask_unsigned_int', 'tset_inmask_float',
+                         'tset_masked_points_perturbed', 'tset_masked_by_inmask', 'tset_masked_by_zero_invvar',
+                         'tset_masked_outliers', 'repeat_eval_same_object', 'repeat_eval_alternating_jump',
                          'table_eval_jump', 'table_eval_ignore_jump', 'table_eval_nojump', 'table_split_step_decided',
                          'grid_decided', 'grid_exact_integer_range', 'grid_fractional_range', 'grid_near_integer_range')
     MIN_NONTRIVIAL = 50
@@ -301,8 +309,11 @@ class C13(Check):
                     iv[g.uniform(size=(nT, nx)) < 0.15] = 0.0
                 iv = iv.astype(DT[dt])
             inmask = None
-            if rng.random() < 0.35:
-                inmask = g.uniform(size=(nT, nx)) > 0.15
+            mask_dtype = None
+            if rng.random() < 0.5:
+                inmask = g.uniform(size=(nT, nx)) > rng.choice([0.05, 0.15, 0.3])
+                # "Mask set to 1 for good points and 0 for rejected points": every flavour of 1/0 array
+                mask_dtype = rng.choice(['bool', 'bool', 'i1', 'i2', 'i4', 'i8', 'i8', 'u1', 'u2', 'float'])
             # data: smooth curve in normalised x + noise, fibre-position like scale
             xn = R.xnorm(x64, rmin, rmax, jump)
             amp = 10.0 ** rng.uniform(0, 3.5)
@@ -310,10 +321,14 @@ class C13(Check):
                     amp * 0.02 * g.normal(size=(nT, 1)) * xn ** 2 + g.normal(size=(nT, nx)) * rng.choice([0.01, 0.3, 1.0]))
             if func == 'chebyshev_split':
                 ypos = ypos + (xn >= 0) * rng.uniform(-5, 5)
-            ypos = ypos.astype(DT[dt])
             w = np.ones((nT, nx)) if iv is None else iv.astype(np.float64)
             if inmask is not None:
                 w = w * inmask
+            outliers = rng.random() < 0.5
+            if outliers:      # what masks are for: the masked / zero-weight points are wildly off the curve
+                off = (w == 0) * g.choice([-1.0, 1.0], (nT, nx)) * amp * 10.0 ** g.uniform(0.5, 3.5, (nT, nx))
+                ypos = ypos + off
+            ypos = ypos.astype(DT[dt])
             ok = True
             for t in range(nT):
                 gd = w[t] > 0
@@ -332,7 +347,8 @@ class C13(Check):
                 continue
             return {'kind': 'tset_fit', 'dtype': dt, 'func': func, 'nc': nc, 'xpos': [_lst(r) for r in xpos],
                     'ypos': [_lst(r) for r in ypos], 'invvar': None if iv is None else [_lst(r) for r in iv],
-                    'inmask': None if inmask is None else inmask.tolist(), 'xmin': xmin, 'xmax': xmax, 'jump': jump,
+                    'inmask': None if inmask is None else inmask.tolist(), 'mask_dtype': mask_dtype, 'outliers': outliers,
+                    'pseed': rng.getrandbits(32), 'xmin': xmin, 'xmax': xmax, 'jump': jump,
                     'maxiter': rng.choice([None, None, 0, 3, 20]), 'via': rng.choice(['xy2traceset', 'TraceSet']),
                     'defaults': rng.random() < 0.5, 'minmax_int': rng.random() < 0.5, 'layout': rng.choice(['C', 'C', 'F'])}
         return None
@@ -681,8 +697,13 @@ class C13(Check):
             kw['invvar'] = iv.copy()
         if case['inmask'] is not None:
             inmask = np.array(case['inmask'], dtype=bool)
-            kw['inmask'] = inmask.copy()
+            md = case.get('mask_dtype') or 'bool'
+            mdt = {'bool': bool, 'i1': np.int8, 'i2': np.int16, 'i4': np.int32, 'i8': np.int64, 'u1': np.uint8,
+                   'u2': np.uint16, 'float': D}[md]
+            kw['inmask'] = inmask.astype(mdt)          # 1 = good, 0 = rejected
             out.count('tset_inmask_used')
+            out.count({'b': 'tset_inmask_bool', 'i': 'tset_inmask_signed_int', 'u': 'tset_inmask_unsigned_int',
+                       'f': 'tset_inmask_float'}[md[0]])
         if case['xmin'] is not None:
             kw['xmin'], kw['xmax'] = case['xmin'], case['xmax']
             if case.get('minmax_int') and float(case['xmin']).is_integer() and float(case['xmax']).is_integer():
@@ -697,7 +718,11 @@ class C13(Check):
         for key in ('invvar', 'inmask'):
             if key in kw:
                 kw[key] = lay(kw[key])
+        given = {k: v.copy() for k, v in kw.items() if isinstance(v, np.ndarray)}
         tset = ctor(lay(xpos), lay(ypos), **kw)
+        for k, v in given.items():
+            out.expect(np.array_equal(kw[k], v) and kw[k].dtype == v.dtype, 'tset-inputs-unchanged',
+                       'the constructor modified its argument %s' % k)
         x64 = xpos.astype(np.float64)
         xmin = float(x64.min()) if case['xmin'] is None else float(case['xmin'])
         xmax = float(x64.max()) if case['xmax'] is None else float(case['xmax'])
@@ -793,9 +818,45 @@ class C13(Check):
                 out.count('tset_roundtrip_float32', nT)
             if jump is not None and xmin < jump[0] and jump[1] < xmax:
                 out.count('tset_jump_window_inside')
+        # masked (inmask == 0) and zero-weight (invvar == 0) points have no influence: change their y hugely, refit
+        masked = w == 0
+        if masked.any():
+            p = np.random.default_rng(case.get('pseed', 0))
+            big = 1e6 * max(1.0, float(np.abs(ypos.astype(np.float64)).max()))
+            y2 = ypos.astype(np.float64)
+            y2[masked] += p.choice([-1.0, 1.0], int(masked.sum())) * big
+            tset2 = ctor(lay(xpos), lay(y2.astype(D)), **kw)
+            out.expect(np.array_equal(np.asarray(tset2.coeff), coeff), 'tset-masked-no-influence',
+                       'coefficients changed when only masked / zero-weight points were changed (inmask dtype %s): '
+                       'max change %.3g' % (case.get('mask_dtype'), float(np.abs(np.asarray(tset2.coeff, dtype=np.float64) -
+                                                                                  coeff.astype(np.float64)).max())))
+            out.expect(np.array_equal(np.asarray(tset2.yfit)[~masked], yfit[~masked]), 'tset-masked-no-influence',
+                       'yfit at unmasked points changed when only masked / zero-weight points were changed')
+            out.count('tset_masked_points_perturbed', int(masked.sum()))
+            if inmask is not None and (~inmask).any():
+                out.count('tset_masked_by_inmask', int((~inmask).sum()))
+            if iv is not None and (iv == 0).any():
+                out.count('tset_masked_by_zero_invvar', int((iv == 0).sum()))
+            if case.get('outliers'):
+                out.count('tset_masked_outliers')
         # default grid of the fitted trace set
         self._check_grid(out, tset, func, coeff, xmin, xmax, jump, R.EPS32 if (dt == 'f4' and case['xmin'] is None) else R.EPS64,
                          band=SPLIT_BAND['f8'])
+        # the same object evaluated again (after the default grid, with the other jump setting in between): nothing is stale
+        if jump is not None:
+            xi, yi = tset.xy(xpos.copy(), ignore_jump=True)
+            self._check_eval(out, 'tset-evaluate-ignore-jump', func, coeff, xpos, yi, xmin, xmax, None, eps, dt == 'f8', band)
+        xr, yr = T.traceset2xy(tset, xpos.copy())
+        out.expect(np.array_equal(yr, ye), 'repeat-evaluation',
+                   'second traceset2xy(tset, xpos) on the same object differs from the first')
+        half = xpos[:, ::-2].copy()
+        xh, yh = tset.xy(half.copy())
+        # (a different shape may take another BLAS summation order, so this one is compared with the reference, not bitwise)
+        out.expect(yh.shape == half.shape, 'repeat-evaluation', 'y of shape %r for xpos of shape %r' % (yh.shape, half.shape))
+        self._check_eval(out, 'repeat-evaluation', func, coeff, half, yh, xmin, xmax, jump, eps, dt == 'f8', band)
+        out.expect(np.array_equal(np.asarray(tset.coeff), coeff) and float(tset.xmin) == xmin and float(tset.xmax) == xmax,
+                   'repeat-evaluation', 'evaluating changed the trace set (coeff / xmin / xmax)')
+        out.count('repeat_eval_same_object')
         out.nontrivial = nc >= 2
 
     def _check_grid(self, out, tset, func, coeff, xmin, xmax, jump, eps_range, band, ignore_jump=False, jump_eps=0.0):
@@ -862,6 +923,23 @@ class C13(Check):
                 xi, yi = tset.xy(xpos.copy(), ignore_jump=True)
                 ok = self._check_eval(out, 'table-evaluate-ignore-jump', func, coeff, xpos, yi, xmin, xmax, None, EPS[xd],
                                       xd == 'f8', SPLIT_BAND[xd]) and ok
+            # repeated calls on the same object in another order: default grid with the jump again (after ignore_jump),
+            # a differently shaped xpos, the first xpos again - each against the reference, the repeats bit-identical
+            self._check_grid(out, tset, func, coeff, xmin, xmax, jump, eps_range, SPLIT_BAND['f8'], jump_eps=jeps)
+            if jump is not None:
+                self._check_grid(out, tset, func, coeff, xmin, xmax, jump, eps_range, SPLIT_BAND['f8'], ignore_jump=True)
+                out.count('repeat_eval_alternating_jump')
+            sub = xpos[:, ::-1][:, :max(1, xpos.shape[1] // 2)].copy()
+            xs, ys = tset.xy(sub.copy())
+            ok = self._check_eval(out, 'repeat-evaluation', func, coeff, sub, ys, xmin, xmax, jump, EPS[xd], xd == 'f8',
+                                  SPLIT_BAND[xd], jeps) and ok
+            xr, yr = T.traceset2xy(tset, xpos.copy())
+            out.expect(np.array_equal(yr, ye), 'repeat-evaluation',
+                       'second traceset2xy(tset, xpos) on the same object differs from the first')
+            out.expect(np.array_equal(np.asarray(tset.coeff, dtype=np.float64), coeff.astype(np.float64)) and
+                       float(tset.xmin) == xmin and float(tset.xmax) == xmax, 'repeat-evaluation',
+                       'evaluating changed the trace set (coeff / xmin / xmax)')
+            out.count('repeat_eval_same_object')
             if ok:
                 out.count('table_eval_jump' if jump is not None else 'table_eval_nojump', nT)
                 if jump is not None:
